@@ -1,3 +1,92 @@
-import SqliteDissect.Model.Wal
+/-
+C14 — index and WITHOUT ROWID b-trees decode to exactly SQLite's entries.
+
+The page- and tree-level machinery is shared with C01 (`Properties/C01Tree`); this file states the
+three clauses of the property for an index b-tree: all entries (leaf *and* interior cells) are
+recovered with their values, in the order in which `get_pages_from_b_tree_page` lists the pages;
+the leaf-only listing is a sub-list of them with the same values; the leaf-only listing of a tree
+with interior pages is a *proper* part of the entries (so "the listing helpers return a subset"
+cannot be strengthened to equality).
+-/
+import SqliteDissect.Proofs.TreeParse
+import SqliteDissect.Proofs.Config
+import SqliteDissect.Proofs.TreeDemo
+
 namespace SqliteDissect.Properties.C14
+open SqliteDissect SqliteDissect.Model SqliteDissect.Spec
+
+/-- **all entries.**  Every entry of an index / WITHOUT ROWID b-tree laid out as SQLite lays it out
+(any depth, overflowing keys included — `CellSpec.Valid` carries the chains — page numbers pairwise
+distinct) is found in the pages `get_b_tree_root_page` constructs: the cells of all pages, interior
+pages included, carry exactly the stored column values, page by page in construction order. -/
+theorem index_entries (v : VersionIf) (hu : 512 ≤ v.pageSize) (hu2 : v.pageSize ≤ 65536)
+    (T : TTree) (hT : TreeLaidOut v false T) (fuel : Nat) (hf : T.frames ≤ fuel) (hpd : T.PagesDistinct) :
+    ∃ t, getBTreeRoot v fuel T.page = .ok t ∧
+      Elementwise (fun s c => CellSpec.ReportedAs v.pageSize s c) T.allCells (t.flatMap (·.cells)) ∧
+      (t.flatMap (·.cells)).map Spec.cellRow = T.allCells.map CellSpec.row := by
+  obtain ⟨t, h1, h2, h3, _, _⟩ := Proofs.TreeParse.index_tree_entries v hu hu2 T hT fuel hf hpd
+  exact ⟨t, h1, h2, h3⟩
+
+/-- **the leaf-only listing** (`aggregate_leaf_cells`, behind `select_all_from_index`): it visits
+exactly the entries stored on leaf pages, with the stored values, and these form a sub-list of all
+entries of the tree -/
+theorem leaf_listing (v : VersionIf) (hu : 512 ≤ v.pageSize) (hu2 : v.pageSize ≤ 65536)
+    (T : TTree) (hT : TreeLaidOut v false T) (fuel : Nat) (hf : T.frames ≤ fuel) (hpd : T.PagesDistinct) :
+    ∃ t, getBTreeRoot v fuel T.page = .ok t ∧
+      (leafCells t).map Spec.cellRow = T.leafCells.map CellSpec.row ∧
+      (aggregateLeafCells t []).1 = T.leafCells.length ∧
+      (leafCells t).Sublist (t.flatMap (·.cells)) ∧
+      ((leafCells t).map Spec.cellRow).Sublist (T.allCells.map CellSpec.row) := by
+  obtain ⟨t, h1, _, h3, h4, h5⟩ := Proofs.TreeParse.index_tree_entries v hu hu2 T hT fuel hf hpd
+  have hsub := Proofs.Config.leaf_cells_sublist t
+  refine ⟨t, h1, ?_, h5, hsub, ?_⟩
+  · exact (Proofs.TreeParse.elementwise_map_eq _ CellSpec.row Spec.cellRow
+      (fun s c h => (Proofs.TreeParse.reported_row v.pageSize s c h).symm) _ _ h4).symm
+  · rw [← h3]
+    exact hsub.map _
+
+/-- the listing of an already parsed tree is a sub-list of its cells whatever the tree is -/
+theorem leaf_listing_subset (t : List BPage) : (leafCells t).Sublist (t.flatMap (·.cells)) := by
+  exact Proofs.Config.leaf_cells_sublist t
+
+/-- the abstract counterpart: the leaf entries are among all entries, and an interior node adds its
+own cells' entries to them (index interior cells carry entries), so a tree with a non-empty interior
+node has strictly more entries than its leaf listing shows -/
+theorem interior_entries_not_listed (p : Nat) (ch : List (TTree × Key)) (rm : TTree) (hne : ch ≠ []) :
+    (TTree.interior p ch rm).leafCells.length < (TTree.interior p ch rm).allCells.length := by
+  have hl := (Proofs.TreeParse.leafCells_nodes false (TTree.interior p ch rm))
+  have ha := (Proofs.TreeParse.allCells_nodes false (TTree.interior p ch rm))
+  rw [hl, ha, TTree.nodes]
+  have hroot : ((TTree.interior p ch rm).kind false).isInterior = true := by
+    simp [TTree.kind, PageType.isInterior]
+  have hcells : 0 < ((TTree.interior p ch rm).rootCells).length := by
+    simp only [TTree.rootCells, List.length_map]
+    exact List.length_pos_iff.mpr hne
+  have hle : ∀ l : List (Nat × PageType × List CellSpec),
+      (l.flatMap (fun nd => if nd.2.1.isInterior then [] else nd.2.2)).length ≤ (l.flatMap (fun nd => nd.2.2)).length := by
+    intro l
+    induction l with
+    | nil => simp
+    | cons a l ih =>
+      rw [List.flatMap_cons, List.flatMap_cons, List.length_append, List.length_append]
+      by_cases h : a.2.1.isInterior = true
+      · rw [if_pos h, List.length_nil]; omega
+      · rw [if_neg h]; omega
+  have := hle (rm.nodes false ++ (ch.map fun c => c.1.nodes false).flatten)
+  rw [List.cons_append, List.flatMap_cons, List.flatMap_cons, List.length_append, List.length_append]
+  simp only [hroot, if_true, List.length_nil]
+  omega
+
+/-! ### non-vacuity: the index leaf page of `Proofs/TreeDemo` -/
+
+open Proofs.TreeDemo in
+example : ∃ pg, parseBTree demoV3 1 7 .indexLeaf = .ok [pg] ∧ (leafCells [pg]).Sublist ([pg].flatMap (·.cells)) := by
+  obtain ⟨pg, h, _⟩ := Proofs.TreeDemo.demo_short_cells
+  exact ⟨pg, h, leaf_listing_subset [pg]⟩
+
+/-- an interior node with one cell over two one-entry leaves: three entries, two of them listed -/
+example : (TTree.interior 2 [(TTree.leaf 3 [.indexLeaf [] []], .entry [] [])] (TTree.leaf 4 [.indexLeaf [] []])).leafCells.length <
+    (TTree.interior 2 [(TTree.leaf 3 [.indexLeaf [] []], .entry [] [])] (TTree.leaf 4 [.indexLeaf [] []])).allCells.length :=
+  interior_entries_not_listed _ _ _ (by simp)
+
 end SqliteDissect.Properties.C14
